@@ -508,6 +508,30 @@ impl fmt::Display for MediaPlaylist<'_> {
         let mut available_keys = BTreeSet::<ExtXKey<'_>>::new();
 
         for segment in self.segments.values() {
+            // A key that has been announced for an earlier segment stays in effect for
+            // everyone reading the text, until a key with the same key format replaces it
+            // or `METHOD=NONE` resets all keys. If this segment neither keeps nor replaces
+            // such a key, the keys have to be reset explicitly before its own keys are
+            // announced again.
+            let is_dropped = |announced: &ExtXKey<'_>| {
+                announced.0.as_ref().map_or(false, |old| {
+                    !segment.keys.iter().any(|key| {
+                        key.0.as_ref().map_or(false, |new| {
+                            new.format.as_ref().unwrap_or(&KeyFormat::Identity)
+                                == old.format.as_ref().unwrap_or(&KeyFormat::Identity)
+                        })
+                    })
+                })
+            };
+
+            if available_keys.iter().any(is_dropped)
+                && !segment.keys.iter().any(|key| key.0.is_none())
+            {
+                available_keys.clear();
+                available_keys.insert(ExtXKey::empty());
+                writeln!(f, "{}", ExtXKey::empty())?;
+            }
+
             for key in &segment.keys {
                 if let ExtXKey(Some(decryption_key)) = key {
                     // next segment will be encrypted, so the segment can not have an empty key
